@@ -74,19 +74,38 @@ def getInner : Expr → Expr
   | .cast e _ => getInner e
   | e => e
 
-def pushValue (acc : List Stmt) (v : Expr) : List Stmt :=
+/-- `used_later[i]` (fix 43be447): some LATER expression mentions a variable named `_`
+(`uses_discard_variable`: `FindVariables` through `DefaultVisitor::visit_expression`) -/
+def usedLaterFlags : List Expr → List Bool
+  | [] => []
+  | _ :: rest => rest.any (usedInExpr "_") :: usedLaterFlags rest
+
+def pushValue (acc : List Stmt) (p : Expr × Bool) : List Stmt :=
   -- `acc` is kept reversed: its head is `statements.last_mut()`
-  match getInner v with
+  match getInner p.1 with
   | .call f m k args => .callStmt (.call f m k args) :: acc
   | value =>
-    match acc with
-    | .localAssign kind ns vs :: rest => .localAssign kind ns (vs ++ [value]) :: rest
-    | _ => .localAssign .loc [.mk "_" none] [value] :: acc
+    -- (fix 43be447: a value that a later expression could see through `_` gets its own block)
+    if p.2 then .doBlock (.mk [.localAssign .loc [.mk "_" none] [value]] none) :: acc
+    else
+      match acc with
+      | .localAssign kind ns vs :: rest => .localAssign kind ns (vs ++ [value]) :: rest
+      | _ => .localAssign .loc [.mk "_" none] [value] :: acc
 
+/-- `expressions_as_statement` (`src/utils/expressions_as_statement.rs`) -/
 def exprsAsStatement (values : List Expr) : Stmt :=
-  match (values.foldl pushValue []).reverse with
+  match ((values.zip (usedLaterFlags values)).foldl pushValue []).reverse with
   | [s] => s
   | stmts => .doBlock (.mk stmts none)
+
+/-- `discarded_values_as_statement` (fix of F25): a bare `local _ = …` would shadow a variable named `_` in the
+statements that follow, so it gets its own block — unless the declaration it replaces already declared `_`
+(then nothing after it can mean another `_`; this also keeps the rule from wrapping its own output again when
+the visitor descends into the new block) -/
+def discardedAsStatement (values : List Expr) (declaresDiscard : Bool) : Stmt :=
+  match exprsAsStatement values, declaresDiscard with
+  | .localAssign kind ns vs, false => .doBlock (.mk [.localAssign kind ns vs] none)
+  | s, _ => s
 
 /-! ### rewriting one declaration -/
 
@@ -116,7 +135,7 @@ def distinctNames : List String → Bool
 def rewriteLocal (api : EvalApi) (kind : LocalKind) (ns : List TName) (vs : List Expr) (usages : List Bool) : Option Stmt :=
   if usages.all (!·) then
     let values := vs.filter api.hasSideEffects
-    if values.isEmpty then none else some (exprsAsStatement values)
+    if values.isEmpty then none else some (discardedAsStatement values ((tnames ns).contains "_"))
   else if usages.any (!·) && distinctNames (tnames ns) then
     -- (fix of F27: a declaration with a repeated name is not regrouped)
     let pairs := ns.zip usages
@@ -132,7 +151,7 @@ def rewriteLocal (api : EvalApi) (kind : LocalKind) (ns : List TName) (vs : List
     let (variables, values) := regroup api assignments' (unassigned, unassigned.map fun _ => Expr.nil)
     if variables.isEmpty then
       let extra := vs.drop length
-      if extra.isEmpty then none else some (exprsAsStatement extra)
+      if extra.isEmpty then none else some (discardedAsStatement extra ((tnames ns).contains "_"))
     else some (.localAssign .loc variables (values ++ vs.drop length))
   else some (.localAssign kind ns vs)
 
@@ -185,62 +204,19 @@ def loop (api : EvalApi) : Nat → Block → Block
 /-- `flawless_process` -/
 def apply (api : EvalApi) (b : Block) : Block := loop api (b.size + 1) b
 
-/-! ### the defect regions
+/-! ### the defect regions — all FIXED
 
-* F25: an unused declaration with an effectful non-call value is replaced by a bare
-  `local _ = value` in the SAME scope — later reads of a global or outer `_` are captured.
+* F25 (fixed): an unused declaration with an effectful non-call value used to be replaced by a bare
+  `local _ = value` in the SAME scope — later reads of a global or outer `_` were captured. The replacement now
+  gets its own block (`discardedAsStatement`), and `expressions_as_statement` itself isolates a value from a
+  later expression that mentions `_` (fix 43be447).
 * F26 (fixed): `local a, b` WITHOUT values, with some but not all names used, used to be removed
   entirely; the used names are now re-declared.
 * F27 (fixed): regrouping a partially used declaration puts the trailing value-less variables
   FIRST; with a repeated name that changed the visible binding — such declarations are now kept.
-`H`: on every pass of the rule, no scope contains such a rewrite (F25 only counts when the
-program reads a variable named `_` somewhere). -/
+No region of the rule is excluded from the oracle any more. -/
 
-def declaresUnderscore : Option Stmt → Bool
-  | some (.localAssign _ ns _) => (tnames ns).contains "_"
-  | _ => false
-
-/-- reasons found while rewriting the statements of one scope -/
-def scanStmts (api : EvalApi) (readsUnderscore : Bool) (last : Option Last) (inExtra : List String) :
-    List Stmt → Option String → Option String
-  | [], w => w
-  | s :: rest, w =>
-    let w' : Option String :=
-      match w, s with
-      | some x, _ => some x
-      | none, .localAssign kind ns vs =>
-        let usages := (tnames ns).map fun id => isUsedAfter id rest last inExtra
-        let r := rewriteLocal api kind ns vs usages
-        if readsUnderscore && declaresUnderscore r && !(tnames ns).contains "_" then
-          some "F25 introduces local _ in a scope that reads _"
-        else none
-      | none, _ => none
-    scanStmts api readsUnderscore last inExtra rest w'
-
-def scanScope (api : EvalApi) (readsUnderscore : Bool) : Block → Option Expr → Option String → (Block × Option Expr) × Option String
-  | .mk stmts last, extra, w =>
-    ((.mk stmts last, extra), scanStmts api readsUnderscore last (usagesInExtra stmts extra) stmts w)
-
-def readsProcessor : Processor Bool :=
-  { node := fun e s => match e with
-      | .var "_" => (e, true)
-      | _ => (e, s) }
-
-/-- some expression of the block is the variable `_` -/
-def readsUnderscore (b : Block) : Bool := (Visitor.runDefault readsProcessor b false).2
-
-def regionLoop (api : EvalApi) : Nat → Block → Option String
-  | 0, _ => none
-  | n + 1, b =>
-    let ru := readsUnderscore b
-    let (_, w0) := scanScope api ru b none none
-    match (Visitor.runDefault ({ scope := scanScope api ru } : Processor (Option String)) b w0).2 with
-    | some w => some w
-    | none =>
-      let (b', mutated) := pass api b
-      if mutated then regionLoop api n b' else none
-
-/-- `none`: inside `H` -/
-def outsideH (api : EvalApi) (b : Block) : Option String := regionLoop api (b.size + 1) b
+/-- `none`: inside `H` — every program, since the fixes -/
+def outsideH (_api : EvalApi) (_b : Block) : Option String := none
 
 end DarkluaModel.Rules.UnusedVariable
